@@ -76,4 +76,7 @@ F64 forwards_to_super finds the class of a method that modifiers wrapped
 F65 to an attribute that does not exist surfaces as ValueError
 F66 works on as_forged objects that carry their forger themselves
 F67 lies deeper than its caller
+F69 is decided by identity with the empty marker
+F71 mask refuses a negative number of positional arguments
+F70 without any signature raise ValueError
 LIST
